@@ -638,6 +638,7 @@ func init() {
 			ruleInputAdmission(c, w, tb, c.Tier == "thorough")
 			ruleSuiteAdmission(c, w, tb)
 			ruleAdmissionThroughEntries(c, w, tb)
+			ruleHistoryIndependence(c, w, tb, NewEffects(tb), "R14.4", w.Funcs(OtpPath, "GenerateOCRA", "ValidateOCRA", "NewSuite", "NewRawSuite", "OCRAInput.Validate", "SuiteConfig.Validate")...)
 			c.Floor("R14.1", 1)
 			c.Floor("R14.2", 4)
 			c.Floor("R14.3", 8)
